@@ -943,7 +943,11 @@ func (cs *Contracts) LoadFile(path, pkgPath string, specOnly bool) {
 				}
 				mu, ord := parts[0], 0
 				if i := strings.Index(mu, "#"); i >= 0 {
-					fmt.Sscanf(mu[i+1:], "%d", &ord)
+					if mu[i+1:] == "defer" {
+						ord = -1 // sections executed by deferred closures run inline at return
+					} else {
+						fmt.Sscanf(mu[i+1:], "%d", &ord)
+					}
 					mu = mu[:i]
 				}
 				if c, ok := mk(parts[2], l.line); ok {
